@@ -54,6 +54,10 @@ def jobs(tier):
                          bounds="batch kind %d" % b, unwind=13))
     js.append(l2_job("C01.evalbatch.loopstart", "l2/c01_evalbatch.c", defines={"BATCH": 0, "LOOPSTART": 1},
                      symbolic=["errno left by callbacks (int)", "on_start result"], bounds="loop start", unwind=13))
+    for act, ret in ((1, 1), (1, 0), (2, 1), (3, 1), (3, 0)):
+        js.append(l2_job("C01.evalself.act%d.ret%d" % (act, ret), "l2/c01_evalself.c", defines={"ACT": act, "RET": ret},
+                         symbolic=["errno left by callbacks (int)", "quit code (uint8)"],
+                         bounds="on_eval of an IDLE module %s its own module and returns %d" % (("deregisters", "stops", "starts")[act - 1], ret), unwind=13))
     js.append(l2_job("C01.nohandler.pausedflush", "l2/c03_pill.c", defines={"SCEN": 1, "DESC": 0},
                      symbolic=["errno left by callbacks (int)", "quit code (uint8)"],
                      bounds="message pending for a PAUSED module when the loop stops: no handler may run", unwind=13))
